@@ -82,7 +82,7 @@ CHECKS = {
         "strong form and uniqueness up to the kernel of M, stationary point => global minimiser, exact solution => minimiser, shape of "
         "add_mean_one and 'zero residual => sum x = n'. Per run (hook FORSYS_VERIF=1): the augmented system is rebuilt by the model and compared "
         "exactly, the certificate for the path taken is checked by the Lean driver, and an independent NNLS reference decides the objective "
-        "gap, closeness when unique, sign, finiteness and mean one. fix_stress (KF1) and the inversion path's negative multiplier (KF3) are known findings.",
+        "gap, closeness when unique, sign, finiteness and mean one. fix_stress (KF1) and the inversion path's negative multiplier (KF3) are known findings. Quantitative closure (Props/C05bound.lean): a vector passing the (eps, delta) certificate is within 2(eps*sum(t) + delta)/sigma^2 (squared norm) of a non-negative exact solution t when sigma^2 |x|^2 <= |Mx|^2, specialised to the assembled static system (static_certified_recovery) and, with the three-decimal rounding of the right-hand side, to the dynamic one (dynamic_rounded_certified_recovery); sigma^2 itself is computed in floating point per run.",
    design_ref="DESIGN.md §7 C05",
    technique="Lean 4 soundness theorems for optimality certificates + per-run exact certificate checking of the real solver output",
    note=BASE_NOTE + " Certificate tolerances (relative to system scale): 1e-9 inv/nnls, 1e-5 lsq, 1e-6 lsq_linear."),
